@@ -599,13 +599,26 @@ class Ruby(ContentElement):
     if self.has_children():
       raise RuntimeError("Remove all ruby children before adding more.")
 
+    # `children` can be an iterator, which can be consumed only once
+
+    children = list(children)
+
     ts = [type(x) for x in children]
 
     if ts not in [[Rb, Rt], [Rb, Rp, Rt, Rp], [Rbc, Rtc], [Rbc, Rtc, Rtc]]:
       raise ValueError("Children of ruby do not conform to requirements")
 
-    for child in children:
-      super().push_child(child)
+    try:
+
+      for child in children:
+        super().push_child(child)
+
+    except Exception:
+
+      # do not keep only a part of the children, which would not conform to the requirements
+
+      self.remove_children()
+      raise
 
   def remove_children(self):
     '''Remove all children of the element.'''
@@ -732,6 +745,9 @@ class Rtc(ContentElement):
 
     if isinstance(self.first_child(), Rt):
       expect = (Rt,)
+    elif isinstance(self.first_child(), Rp) and self.first_child() is self.last_child():
+      # only the opening rp is present
+      expect = (Rt,)
     elif isinstance(self.first_child(), Rp) and isinstance(self.last_child(), Rp):
       expect = (type(None),)
     else:
@@ -746,7 +762,13 @@ class Rtc(ContentElement):
     raise RuntimeError("Rtc children must be removed using `remove_children`")
 
   def push_children(self, children: typing.Iterable[ContentElement]):
-    cs = list(children)
+    # `children` can be an iterator, which can be consumed only once
+
+    children = list(children)
+
+    # the requirements apply to the existing children followed by the new ones
+
+    cs = list(self) + children
 
     if len(cs) > 2 and isinstance(cs[0], Rp) and isinstance(cs[-1], Rp):
       cs = cs[1:-1]
@@ -754,8 +776,22 @@ class Rtc(ContentElement):
     if not all(isinstance(x, Rt) for x in cs):
       raise ValueError("Children of rtc do not conform to requirements")
 
-    for child in children:
-      super().push_child(child)
+    pushed_children = []
+
+    try:
+
+      for child in children:
+        super().push_child(child)
+        pushed_children.append(child)
+
+    except Exception:
+
+      # do not keep only a part of the children, which would not conform to the requirements
+
+      for child in pushed_children:
+        super().remove_child(child)
+
+      raise
 
   def remove_children(self):
 
